@@ -5,7 +5,7 @@ from verif.core import Infra
 META = dict(
     technique="TLC exhaustive model check of PipeConns.tla (channel of 4 buffers + partial buffer per direction, multi-step Read interleaved with the other end) and InmemListener.tla (2 Dial x 2 Accept x 1-2 Close calls at the code's step granularity, safety + termination); TLC-generated PipeConns behaviours replayed on real PipeConns (B1); start/end events of concurrent Dial/Accept/Close calls on a real InmemoryListener validated by TLC with silent internal steps (B2); direct stream check under two goroutines per direction",
     design_ref="DESIGN.md §4 C33",
-    text="PipeConnsGen makes TLC visit every distinct pipe state within MaxOps calls and try every call of the menu (Write (through every entry point: Write, WriteString, io.WriteString, bufio.Writer) / Read of sizes {0,(1),3,2000} and, shallower, {3, 65536, 65537, 5 MiB} on either end, with and without a fired deadline, Close) from it; each transition is printed as a behaviour with the (n, allowed errors, stream offset) of every call and replayed on a real PipeConns, comparing every result and every byte (a call the spec lets return must return; the written buffer is overwritten as soon as Write returns; after the last call both ends are drained and the bytes delivered must equal the bytes the Write calls acknowledged -- AckInv). InmemListener is model-checked exhaustively (pairing, uniqueness, nothing succeeds after Close returned, refused connections are closed, termination) and bound by validating the public-API call log of concurrent executions against it (TLC searches the unlogged internal steps), plus peer checks by passing bytes; tens of thousands of short executions race Close against the Dial/Accept hand-over (Accept calls already waiting, Dial and Close released together) and are judged by the pairing oracle of the spec (PairInv/UniqueInv/QuiescentInv, nothing succeeds after Close returned), the first 150 and every violating one also going through the TLC validation.",
+    text="PipeConnsGen makes TLC visit every distinct pipe state within MaxOps calls and try every call of the menu (Write (through every entry point: Write, WriteString, io.WriteString, bufio.Writer) / Read of sizes {0,(1),3,2000} and, shallower, {3, 65536, 65537, 5 MiB} on either end, with and without a fired deadline, Close) from it; each transition is printed as a behaviour with the (n, allowed errors, stream offset) of every call and replayed on a real PipeConns, comparing every result and every byte (a call the spec lets return must return; the written buffer is overwritten as soon as Write returns; reads go through Read(k) and through the read-everything entry points io.Copy(dst, conn) / bufio.Reader.WriteTo / io.ReadAll, also after partial Reads; after the last call both ends are drained and the bytes delivered must equal the bytes the Write calls acknowledged -- AckInv). InmemListener is model-checked exhaustively (pairing, uniqueness, nothing succeeds after Close returned, refused connections are closed, termination) and bound by validating the public-API call log of concurrent executions against it (TLC searches the unlogged internal steps), plus peer checks by passing bytes; tens of thousands of short executions race Close against the Dial/Accept hand-over (Accept calls already waiting, Dial and Close released together) and are judged by the pairing oracle of the spec (PairInv/UniqueInv/QuiescentInv, nothing succeeds after Close returned), the first 150 and every violating one also going through the TLC validation.",
     note="Trusted: position-determined byte pattern detects loss/duplication/reordering; log lines are written before a call starts and after it returns (interval containment); the two-goroutines-per-direction stream stress is a direct harness check, not validated by TLC. Thorough tier adds seeded simulation behaviours (depth 14) and larger constants.",
 )
 
@@ -85,6 +85,7 @@ def run(ctx):
     small = ctx.pick("{0, 3, 2000}", "{0, 1, 3, 2000}")
     all_vias = '{"Write", "WriteString", "io.WriteString", "bufio"}'
     two_vias = '{"Write", "WriteString"}'
+    all_rvias = '{"io.Copy", "bufio.WriteTo", "io.ReadAll"}'   # read-everything entry points (plain Read is always in the menu)
     # B1 pipes: (a) small sizes, deep enough to fill the channel, every write entry point; (b) size classes
     # around 64 KiB and a write larger than anything the channel could hold in pieces (5 MiB), shallower
     huge_w, huge_r = "{3, 65536, 65537, 5242880}", "{3, 200000}"
@@ -95,13 +96,14 @@ def run(ctx):
             # deep (fills the channel), plain Write
             ("tlc_gen", ("util", "PipeConnsGen", "PipeConnsGen.cfg"),
              dict(workers=2, timeout=1500, consts={"OPS": ops, "WSIZES": small, "RSIZES": ctx.pick("{3, 2000}", small), "PRINTALL": "TRUE",
-                                                  "VIAS": '{"Write"}'})),
-            # every write entry point from every state within 4 (thorough: 5) calls
+                                                  "VIAS": '{"Write"}', "RVIAS": "{}"})),
+            # every write entry point and every read-everything entry point (io.Copy on the conn itself, bufio.Reader.WriteTo,
+            # io.ReadAll) from every state within 4 (thorough: 5) calls, i.e. also after partial Reads
             ("tlc_gen", ("util", "PipeConnsGen", "PipeConnsGen.cfg"),
              dict(workers=2, timeout=1500, consts={"OPS": ctx.pick(4, 5), "WSIZES": "{0, 3, 2000}", "RSIZES": ctx.pick("{3, 2000}", "{0, 3, 2000}"),
-                                                  "PRINTALL": "TRUE", "VIAS": all_vias})),
+                                                  "PRINTALL": "TRUE", "VIAS": all_vias, "RVIAS": all_rvias})),
             ("tlc_gen", ("util", "PipeConnsGen", "PipeConnsGen.cfg"),
-             dict(workers=2, timeout=1500, consts={"OPS": ops_huge, "WSIZES": huge_w, "RSIZES": huge_r, "PRINTALL": "TRUE", "VIAS": ctx.pick('{"Write"}', two_vias)}))]
+             dict(workers=2, timeout=1500, consts={"OPS": ops_huge, "WSIZES": huge_w, "RSIZES": huge_r, "PRINTALL": "TRUE", "VIAS": ctx.pick('{"Write"}', two_vias), "RVIAS": '{"io.Copy"}'}))]
     _, _, (_, beh), (_, beh3), (_, beh2) = tlc_parallel(ctx, jobs)
     beh2 = beh2 + beh3
     if not ctx.quick:
@@ -114,7 +116,7 @@ def run(ctx):
     sizes = "%s; %s/%s within %d calls" % (small, huge_w, huge_r, ops_huge)
     if not ctx.quick:
         _, sim = ctx.tlc_gen("util", "PipeConnsGen", "PipeConnsGen.cfg", workers=1,
-                             consts={"OPS": 14, "WSIZES": "{0, 1, 3, 1024, 2000, 65537}", "RSIZES": "{0, 1, 3, 1024, 2000, 100000}", "PRINTALL": "FALSE", "VIAS": all_vias},
+                             consts={"OPS": 14, "WSIZES": "{0, 1, 3, 1024, 2000, 65537}", "RSIZES": "{0, 1, 3, 1024, 2000, 100000}", "PRINTALL": "FALSE", "VIAS": all_vias, "RVIAS": all_rvias},
                              timeout=900, simulate="num=4000", depth=200, args=["-seed", str(ctx.seed)])
         beh += sim
     p = os.path.join(ctx.scratch, "c33_beh.ndjson")
